@@ -604,6 +604,12 @@ func auCred(req *http.Request, form url.Values) auEv {
 		c = none
 	case strings.HasPrefix(auth, "Bearer static-"):
 		c = auEv{"k": "static", "id": 0, "h": strings.TrimPrefix(auth, "Bearer static-")}
+	case strings.HasPrefix(auth, "Bearer rt-"): // a refresh token presented as a bearer token
+		id, err := strconv.Atoi(strings.TrimPrefix(auth, "Bearer rt-"))
+		if err != nil {
+			id = 0
+		}
+		c = auEv{"k": "refresh", "id": id, "h": "-"}
 	case strings.HasPrefix(auth, "Bearer at-"):
 		id, err := strconv.Atoi(strings.TrimPrefix(auth, "Bearer at-"))
 		if err != nil {
@@ -618,6 +624,13 @@ func auCred(req *http.Request, form url.Values) auEv {
 			h = strings.TrimPrefix(up[0], "user-")
 		}
 		c = auEv{"k": "basic", "id": 0, "h": h}
+		if len(up) == 2 && (strings.HasPrefix(up[0], "rt-") || strings.HasPrefix(up[1], "rt-")) { // a refresh token inside Basic
+			id, err := strconv.Atoi(strings.TrimPrefix(strings.TrimPrefix(up[1], "rt-"), up[0]))
+			if err != nil {
+				id = 0
+			}
+			c = auEv{"k": "refresh", "id": id, "h": "-"}
+		}
 	default:
 		c = auEv{"k": "unknown", "id": 0, "h": "-"}
 	}
